@@ -490,6 +490,7 @@ def cases(tier: str, seed: int) -> List[Case]:
             idx += 1
             pinned = cond in (["isinstance", "float"], ["cmp", "!=", "int"], ["is", "isnot", "RED"], ["truthy"],
                               ["cmp", "<", "int", "rev"], ["len", "<", "rev"], ["len", ">=", "rev"])
+            pinned = pinned or (V in (("typeobj",), ("flag",)) and cond[0] in ("issubclass", "is"))
             if quick and (idx + seed) % 2 != 0 and not pinned:
                 continue
             for pol in (True, False):
